@@ -80,6 +80,12 @@ fn ssh_main(args: &[String]) -> i32 {
                 p.cwd = REMOTE_HOME.to_string();
                 p.env.insert("HOME".into(), REMOTE_HOME.into());
                 p.env.insert("HOSTNAME".into(), host.clone());
+                // the remote login shell has its own time zone
+                if let Some(tz) = p.env.remove("SIM_REMOTE_TZ") {
+                    p.env.insert("TZ".into(), tz);
+                } else {
+                    p.env.remove("TZ");
+                }
                 true
             } else {
                 false
@@ -1417,8 +1423,57 @@ fn cmd_rm(args: &[String]) -> i32 {
     status
 }
 
+/// Seconds since the epoch of the civil time CCYYMMDDhhmm[.SS] taken as UTC.
+fn touch_stamp_to_epoch(st: &str) -> Option<i64> {
+    let (main, ss) = match st.split_once('.') {
+        Some((m, s)) => (m, s.parse::<i64>().ok()?),
+        None => (st, 0),
+    };
+    if !main.chars().all(|c| c.is_ascii_digit()) {
+        return None;
+    }
+    let (y, rest) = match main.len() {
+        12 => (main[..4].parse::<i64>().ok()?, &main[4..]),
+        10 => {
+            let yy = main[..2].parse::<i64>().ok()?;
+            (if yy >= 69 { 1900 + yy } else { 2000 + yy }, &main[2..])
+        }
+        _ => return None,
+    };
+    let (mo, d, h, mi) = (rest[0..2].parse::<i64>().ok()?, rest[2..4].parse::<i64>().ok()?, rest[4..6].parse::<i64>().ok()?, rest[6..8].parse::<i64>().ok()?);
+    if !(1..=12).contains(&mo) || !(1..=31).contains(&d) || h > 23 || mi > 59 || ss > 61 {
+        return None;
+    }
+    // days from civil (Howard Hinnant)
+    let y2 = if mo <= 2 { y - 1 } else { y };
+    let era = if y2 >= 0 { y2 } else { y2 - 399 } / 400;
+    let yoe = y2 - era * 400;
+    let doy = (153 * (if mo > 2 { mo - 3 } else { mo + 9 }) + 2) / 5 + d - 1;
+    let doe = yoe * 365 + yoe / 4 - yoe / 100 + doy;
+    let days = era * 146_097 + doe - 719_468;
+    Some(days * 86_400 + h * 3600 + mi * 60 + ss)
+}
+
+/// POSIX TZ `NAME[+-]hh[:mm]`: seconds to ADD to local civil time to get UTC.
+fn tz_offset_west_secs(tz: &str) -> i64 {
+    let t = tz.trim_start_matches(|c: char| c.is_ascii_alphabetic());
+    if t.is_empty() {
+        return 0;
+    }
+    let (sign, t) = match t.strip_prefix('-') {
+        Some(r) => (-1, r),
+        None => (1, t.strip_prefix('+').unwrap_or(t)),
+    };
+    let (h, m) = match t.split_once(':') {
+        Some((h, m)) => (h.parse::<i64>().unwrap_or(0), m.parse::<i64>().unwrap_or(0)),
+        None => (t.parse::<i64>().unwrap_or(0), 0),
+    };
+    sign * (h * 3600 + m * 60)
+}
+
 fn cmd_touch(args: &[String]) -> i32 {
     let mut date: Option<String> = None;
+    let mut stamp: Option<String> = None;
     let mut files = Vec::new();
     let mut i = 0;
     let mut end = false;
@@ -1436,11 +1491,37 @@ fn cmd_touch(args: &[String]) -> i32 {
         } else if !end && a.starts_with("--date=") {
             date = Some(a[7..].to_string());
             i += 1;
+        } else if !end && a == "-t" {
+            stamp = args.get(i + 1).cloned();
+            i += 2;
+        } else if !end && matches!(a.as_str(), "-c" | "-a" | "-m" | "--no-create") {
+            i += 1;
         } else if !end && a.starts_with('-') && a.len() > 1 {
+            unsupported(&format!("touch option {a}"));
             i += 1;
         } else {
             files.push(a.clone());
             i += 1;
+        }
+    }
+    if let Some(st) = &stamp {
+        // POSIX `-t [[CC]YY]MMDDhhmm[.SS]`, read in the time zone of THIS shell (env TZ, POSIX
+        // form NAME[+-]hh[:mm]: "EST5" is five hours WEST of UTC; unset / UTC0 = UTC)
+        match touch_stamp_to_epoch(st) {
+            Some(local) => {
+                let tz = peek(|s, pid| s.procs[pid as usize].env.get("TZ").cloned()).unwrap_or_default();
+                let secs = local + tz_offset_west_secs(&tz);
+                if secs >= 0 {
+                    date = Some(format!("@{secs}"));
+                } else {
+                    eprint_proc(&format!("touch: invalid date format '{st}'\n"));
+                    return 1;
+                }
+            }
+            None => {
+                eprint_proc(&format!("touch: invalid date format '{st}'\n"));
+                return 1;
+            }
         }
     }
     let when = match &date {
